@@ -3,7 +3,9 @@ package env
 import (
 	"context"
 	"errors"
+	"io"
 	"net"
+	"os"
 	"sync"
 	"time"
 
@@ -24,6 +26,7 @@ type FakeStream struct {
 	Closes   int
 	RCancels int
 	WCancels int
+	deadErr  error // set when the connection is gone: what Read and Write report from then on (quic-go reports the connection's error on its streams)
 }
 
 var errStreamCanceled = errors.New("fake quic: stream canceled")
@@ -47,6 +50,8 @@ func (s *FakeStream) Read(p []byte) (int, error) {
 		s.mu.Lock()
 		if s.rCancel {
 			err = errStreamCanceled
+		} else if s.deadErr != nil && err != io.EOF && !errors.Is(err, os.ErrDeadlineExceeded) {
+			err = s.deadErr
 		}
 		s.mu.Unlock()
 	}
@@ -76,7 +81,15 @@ func (s *FakeStream) Write(p []byte) (int, error) {
 	if bad {
 		return 0, errStreamCanceled
 	}
-	return s.E.Write(p)
+	n, err := s.E.Write(p)
+	if err != nil {
+		s.mu.Lock()
+		if s.deadErr != nil && !errors.Is(err, os.ErrDeadlineExceeded) {
+			err = s.deadErr
+		}
+		s.mu.Unlock()
+	}
+	return n, err
 }
 func (s *FakeStream) Close() error {
 	s.mu.Lock()
@@ -107,8 +120,13 @@ func (s *FakeStream) SetDeadline(t time.Time) error {
 	return nil
 }
 
-// kill aborts both directions (connection closed).
-func (s *FakeStream) kill() {
+// kill aborts both directions (connection closed); the stream reports err from then on.
+func (s *FakeStream) kill(err error) {
+	s.mu.Lock()
+	if s.deadErr == nil {
+		s.deadErr = err
+	}
+	s.mu.Unlock()
 	s.E.Abort()
 	s.cancel()
 }
@@ -126,6 +144,8 @@ type FakeQuicConn struct {
 	OpenErr         error // if set, OpenStream fails
 	Closed          int
 	StallNext       bool // the next opened stream has its writes stalled
+	Died            bool // the environment killed the connection (Die, DieExcept)
+	pushed          []*FakeStream // streams the peer opened (server role): they die with the connection too
 }
 
 func NewFakeQuicConn(local, remote net.Addr) *FakeQuicConn {
@@ -168,30 +188,66 @@ func (c *FakeQuicConn) AcceptStream(ctx context.Context) (quic.Stream, error) {
 	}
 }
 
-func (c *FakeQuicConn) PushStream(s *FakeStream) { c.accept <- s }
+func (c *FakeQuicConn) PushStream(s *FakeStream) {
+	c.mu.Lock()
+	c.pushed = append(c.pushed, s)
+	dead := c.ctx.Err() != nil
+	c.mu.Unlock()
+	if dead {
+		s.kill(context.Cause(c.ctx))
+		return
+	}
+	c.accept <- s
+}
 
 func (c *FakeQuicConn) CloseWithError(quic.ApplicationErrorCode, string) error {
 	c.mu.Lock()
 	c.Closed++
-	ss := append([]*FakeStream(nil), c.Streams...)
+	ss := append(append([]*FakeStream(nil), c.Streams...), c.pushed...)
 	c.mu.Unlock()
-	c.cancel(errors.New("fake quic: connection closed locally"))
+	err := &quic.ApplicationError{Remote: false, ErrorCode: 0, ErrorMessage: "fake quic: connection closed locally"}
+	c.cancel(err)
 	for _, s := range ss {
-		s.kill()
+		s.kill(err)
 	}
 	return nil
 }
 
 // Die simulates the peer/network killing the connection.
-func (c *FakeQuicConn) Die() {
+func (c *FakeQuicConn) Die() { c.DieExcept(-1) }
+
+// DieExcept kills the connection like Die, but the stream with index late (if any) learns of it only when KillStream is
+// called: quic-go fails the streams of a closed connection one after the other, and the goroutines blocked on them run in
+// any order, so one exchange may see the connection's error arbitrarily later than the others.
+func (c *FakeQuicConn) DieExcept(late int) {
 	c.mu.Lock()
 	ss := append([]*FakeStream(nil), c.Streams...)
+	c.Died = true
 	c.mu.Unlock()
-	c.cancel(errors.New("fake quic: connection lost"))
-	for _, s := range ss {
-		s.kill()
+	c.cancel(fakeConnLost)
+	for i, s := range ss {
+		if i != late {
+			s.kill(fakeConnLost)
+		}
+	}
+	c.mu.Lock()
+	ps := append([]*FakeStream(nil), c.pushed...)
+	c.mu.Unlock()
+	for _, s := range ps {
+		s.kill(fakeConnLost)
 	}
 }
+
+// KillStream delivers the connection's error to a stream DieExcept spared.
+func (c *FakeQuicConn) KillStream(i int) {
+	c.mu.Lock()
+	s := c.Streams[i]
+	c.mu.Unlock()
+	s.kill(fakeConnLost)
+}
+
+// what quic-go reports after the peer closed the connection
+var fakeConnLost error = &quic.ApplicationError{Remote: true, ErrorCode: 0, ErrorMessage: "fake quic: connection lost"}
 
 func (c *FakeQuicConn) NumStreams() int { c.mu.Lock(); defer c.mu.Unlock(); return len(c.Streams) }
 func (c *FakeQuicConn) Stream(i int) (*FakeStream, *End) {
